@@ -45,3 +45,92 @@ pub(crate) fn eval_mut_literal_only<'a, 'ctx>(
 
 // re-export of the helpers living in private sub-modules of `eval`
 pub(crate) use super::amount::verif_kani as amount_verif;
+pub(crate) use super::evaluated::verif_kani as evaluated_verif;
+
+// ---------------------------------------------------------------------------------------------
+// C08: the recursive evaluator composes the operators as ordinary arithmetic over the tree:
+// operands in written order, unary minus applied to its operand, errors propagated.
+// Leaves are bare numbers (commodity typing of each operator: c08_typing_*), 6-bit magnitudes so
+// that the solver can match the products of the evaluator with those of the reference.
+// ---------------------------------------------------------------------------------------------
+use crate::syntax::pretty_decimal::PrettyDecimal;
+use rust_decimal::Decimal;
+use std::borrow::Cow;
+
+fn leaf(v: Decimal) -> expr::Expr<'static> {
+    expr::Expr::Value(Box::new(expr::ValueExpr::Amount(expr::Amount { value: PrettyDecimal::unformatted(v), commodity: Cow::Borrowed("") })))
+}
+
+fn small() -> Decimal {
+    let lo = vk::u8();
+    let neg = vk::bool();
+    vk::assume(lo < 64);
+    Decimal::from_parts(lo as u32, 0, 0, neg, 0)
+}
+
+fn op_of(k: u8) -> expr::BinaryOp {
+    match k {
+        0 => expr::BinaryOp::Add,
+        1 => expr::BinaryOp::Sub,
+        _ => expr::BinaryOp::Mul,
+    }
+}
+
+fn apply(k: u8, a: Decimal, b: Decimal) -> Decimal {
+    match k {
+        0 => a + b,
+        1 => a - b,
+        _ => a * b,
+    }
+}
+
+fn bin(k: u8, l: expr::Expr<'static>, r: expr::Expr<'static>) -> expr::Expr<'static> {
+    expr::Expr::Binary(expr::BinaryOpExpr { op: op_of(k), lhs: Box::new(l), rhs: Box::new(r) })
+}
+
+fn number_leaves(a: &expr::Amount) -> Result<Evaluated<'static>, EvalError> {
+    Ok(Evaluated::Number(a.value.value))
+}
+
+/// shape 0: (a o1 b) o2 c   shape 1: a o1 (b o2 c)   shape 2: (-a) o1 b
+fn check_tree(shape: u8) {
+    let a = small();
+    let b = small();
+    let c = small();
+    let o1 = vk::below(3);
+    let o2 = vk::below(3);
+    vk::note(&|| format!("shape {} a={} b={} c={} ops {} {}", shape, a, b, c, o1, o2));
+    let tree = match shape {
+        0 => bin(o2, bin(o1, leaf(a), leaf(b)), leaf(c)),
+        1 => bin(o1, leaf(a), bin(o2, leaf(b), leaf(c))),
+        _ => bin(o1, expr::Expr::Unary(expr::UnaryOpExpr { op: expr::UnaryOp::Negate, expr: Box::new(leaf(a)) }), leaf(b)),
+    };
+    let want = match shape {
+        0 => apply(o2, apply(o1, a, b), c),
+        1 => apply(o1, a, apply(o2, b, c)),
+        _ => apply(o1, -a, b),
+    };
+    let got = tree.eval_visit(&mut number_leaves);
+    match &got {
+        Ok(Evaluated::Number(n)) => assert!(*n == want, "C08: expression tree does not evaluate to ordinary arithmetic (operand order / grouping / negation)"),
+        Ok(_) => panic!("C08: numbers evaluated to a commodity amount"),
+        Err(_) => panic!("C08: well-typed numeric expression rejected"),
+    }
+    vk_cover!(o1 == 1 && o2 == 2, "subtraction inside, multiplication outside");
+    core::mem::forget(got);
+    core::mem::forget(tree);
+}
+
+vk_proof_models! { unwind 6; fn c08_tree_left() { check_tree(0); } }
+vk_proof_models! { unwind 6; fn c08_tree_right() { check_tree(1); } }
+vk_proof_models! { unwind 6; fn c08_tree_negated() { check_tree(2); } }
+
+#[cfg(all(test, not(kani)))]
+#[test]
+fn verif_replay_entry() {
+    crate::vk::replay_dispatch(&[
+        ("c08_tree_left", c08_tree_left as fn()),
+        ("c08_tree_right", c08_tree_right as fn()),
+        ("c08_tree_negated", c08_tree_negated as fn()),
+    ]);
+}
